@@ -16,21 +16,25 @@ actions (JSON lists):
 from hypothesis import strategies as st
 
 from . import specs
-from .elements import E, Log, RC
+from .elements import E, Log, RC, mk
 from .vloop import install
 
 GRID = 0.125
 
 
 @st.composite
-def actions_strategy(draw, spec, max_actions=40, producers=True, timers=True, min_actions=1):
+def actions_strategy(draw, spec, max_actions=40, producers=True, timers=True, min_actions=1,
+                     none_ok=False):
+    # value code 6 = a plain None as the element (elements.mk); only for oracles that do not need
+    # the provenance of every element
+    top = 6 if none_ok and draw(st.integers(0, 2)) == 0 else 5
     n_ent = len(specs.entry_ids(spec))
     cols = specs.collect_ids(spec)
     has_sink = any(nd["k"] == "sink" for nd in spec["nodes"])
     has_job = any(nd["k"] == "map_async" for nd in spec["nodes"])
-    opts = [st.tuples(st.just("emit"), st.integers(0, n_ent - 1), st.integers(0, 5))] * 3
+    opts = [st.tuples(st.just("emit"), st.integers(0, n_ent - 1), st.integers(0, top))] * 3
     if producers:
-        opts.append(st.tuples(st.just("pemit"), st.integers(0, n_ent - 1), st.integers(0, 5)))
+        opts.append(st.tuples(st.just("pemit"), st.integers(0, n_ent - 1), st.integers(0, top)))
     if has_sink:
         opts += [st.tuples(st.just("fin"), st.integers(0, 3), st.integers(0, 3))] * 2
     if has_job:
@@ -116,7 +120,7 @@ def execute(case, consumer_modes=None, faults=None, md_plan=None, finish=True, h
             log.add("emit", k, ek, log.now())
             log.ctx = k
             try:
-                fut = b.nodes[ents[ek]].emit(E(v, {k}), metadata=md)
+                fut = b.nodes[ents[ek]].emit(mk(v, k), metadata=md)
             except Exception as e:
                 log.ctx = None
                 log.add("emitraise", k, type(e).__name__)
